@@ -27,7 +27,13 @@ fn settle(ctx: &Ctx, w: Watched, order: &str) {
         return;
     }
     let (st, nz) = allocmon::verdict(w.slot);
+    let stale = allocmon::stale_copy(w.slot);
     allocmon::unwatch(w.slot);
+    if let Some(off) = stale {
+        let ctor = w.what.split(' ').next().unwrap_or("");
+        ctx.violation(&format!("C20:copy-of-the-secret-left-in-the-released-block:{}", ctor), json!({"container": w.what, "drop_order": order, "copy_found_at_block_offset": off, "note": "the live 32 bytes were judged separately; this copy sits in the same allocation behind them (e.g. spare capacity)"}));
+        return;
+    }
     let ctor = w.what.split(' ').next().unwrap_or("");
     match st {
         1 => {
